@@ -482,6 +482,42 @@ func init() {
 				composed = append(composed, baseCase("c03-composed", schema, docs, "arrays-of-nulls", fmt.Sprintf("#%d required=%v", ni, required)))
 			}
 		}
+		// strings with a `format` (every name of the specification's vocabulary, the OpenAPI ones, and unknown ones), as a
+		// member, as array items, through a definition and as a map's value type: whatever the format means for the Go type,
+		// only a JSON string is admitted — not an array of small integers, not a number, not a boolean
+		for _, f := range []struct{ name, ok string }{
+			{"date", "2020-01-02"}, {"date-time", "2020-01-02T03:04:05Z"}, {"time", "03:04:05"}, {"duration", "PT1H"}, {"ipv4", "1.2.3.4"}, {"ipv6", "::1"},
+			{"email", "a@b.c"}, {"idn-email", "a@b.c"}, {"hostname", "h.example"}, {"idn-hostname", "h.example"}, {"uri", "urn:x"}, {"uri-reference", "x"},
+			{"iri", "urn:x"}, {"iri-reference", "x"}, {"uuid", "123e4567-e89b-12d3-a456-426614174000"}, {"uri-template", "/x"}, {"json-pointer", "/a"},
+			{"relative-json-pointer", "0/a"}, {"regex", "a*"}, {"byte", "aGk="}, {"binary", "aGk="}, {"password", "aGk="}, {"base64", "aGk="}, {"bytes", "aGk="},
+			{"int32", "1"}, {"int64", "1"}, {"float", "1"}, {"double", "1"}, {"char", "c"}, {"rune", "r"}, {"hex", "ff"}, {"color", "#fff"}, {"phone", "1"}, {"my-own", "x"},
+		} {
+			for pi, pos := range []string{"member", "items", "definition", "map-value"} {
+				str := M{"type": "string", "format": f.name}
+				var schema M
+				var wrap func(any) any
+				if pos == "definition" && (f.name == "date" || f.name == "date-time" || f.name == "time" || f.name == "duration" || f.name == "ipv4" || f.name == "ipv6") {
+					// listed finding K-named-format-definition (C02, C03): a definition over a format with a library type is declared as a
+					// new defined type, which loses that type's methods — valid strings are rejected, objects accepted
+					continue
+				}
+				switch pos {
+				case "member":
+					schema, wrap = M{"type": "object", "properties": M{"v": str}}, func(v any) any { return M{"v": v} }
+				case "items":
+					schema, wrap = M{"type": "object", "properties": M{"v": M{"type": "array", "items": str}}}, func(v any) any { return M{"v": []any{v}} }
+				case "definition":
+					schema, wrap = M{"type": "object", "properties": M{"v": M{"$ref": "#/$defs/F"}}, "required": []any{"v"}, "$defs": M{"F": str}}, func(v any) any { return M{"v": v} }
+				case "map-value":
+					schema, wrap = M{"type": "object", "properties": M{"v": M{"type": "object", "additionalProperties": str}}}, func(v any) any { return M{"v": M{"k": v}} }
+				}
+				docs := []any{wrap(f.ok)}
+				for _, v := range []any{[]any{104, 105}, []any{1, 2, 3}, []any{}, []any{"a"}, 5, 1.5, true, M{}, M{"a": 1}} {
+					docs = append(docs, wrap(v))
+				}
+				composed = append(composed, baseCase("c03-composed", schema, docs, "string-formats", f.name, fmt.Sprintf("%s #%d", pos, pi)))
+			}
+		}
 		// keywords that are PRESENT WITH AN EMPTY VALUE next to a typed additionalProperties (properties: {}, required: [],
 		// definitions: {}): an object without declared members is a typed map whatever else is spelled out emptily
 		for _, at := range []M{{"type": "object"}, {"type": "array", "items": M{"type": "string"}}, {"type": "integer"}, {"type": "string"}, {"type": "boolean"}, {"type": "number"}} {
